@@ -28,7 +28,7 @@ import re
 class SpecError(Exception):
     pass
 
-_FN_DIR = re.compile(r"^  (within|props|ret|attr|prologue|requires|ensures|decreases|loop|at|subst|kind|canary)\b(.*)$")
+_FN_DIR = re.compile(r"^  (within|props|ret|attr|prologue|requires|ensures|decreases|loop|at|subst|kind|canary|stub)\b(.*)$")
 _LOOP_DIR = re.compile(r"^    (invariant|invariant_except_break|ensures|decreases|prologue)\b(.*)$")
 
 
@@ -102,6 +102,7 @@ def parse(path):
             elif key == "within": cur["within"] = val
             elif key == "kind": cur["itemkind"] = val
             elif key == "canary": cur["canary"] = val
+            elif key == "stub": cur["stub"] = val
             elif key == "attr": cur["attrs"].append(val)
             elif key in ("prologue", "decreases"):
                 buf = [val] if val else []
